@@ -588,6 +588,18 @@ class PyExec:
             return PStr(a.codes + b.codes, text=(a.text + b.text) if a.text is not None and b.text is not None else None)
         if op == "+" and isinstance(a, PTuple) and isinstance(b, PTuple):
             return PTuple(a.items + b.items)
+        if op == "*" and isinstance(b, (PInt, PAny)) and (isinstance(a, PTuple) and len(a.items) == 1 or (
+                isinstance(a, PRef) and a.cls in ("list", "tuple") and z3.is_int_value(z3.simplify(st.heap.len(a.addr)))
+                and z3.simplify(st.heap.len(a.addr)).as_long() == 1)):
+            # [x] * n / (x,) * n: a new sequence of max(n, 0) references to x
+            x0 = ival(a.items[0]) if isinstance(a, PTuple) else st.heap.el(a.addr, 0)
+            cnt = self.as_int(st, b, n)
+            return self.new_seq(st, "tuple" if isinstance(a, PTuple) else a.cls, z3.If(cnt > 0, cnt, 0), z3.K(IntSort, x0))
+        if op == "+" and isinstance(a, PRef) and isinstance(b, PRef) and a.cls == b.cls and a.cls in ("tuple", "list"):
+            la, lb = st.heap.len(a.addr), st.heap.len(b.addr)
+            ea, eb = st.heap.els(a.addr), st.heap.els(b.addr)
+            j = z3.Int("j!concat")
+            return self.new_seq(st, a.cls, la + lb, z3.Lambda([j], z3.If(j < la, z3.Select(ea, j), z3.Select(eb, j - la))))
         x = self.as_int(st, a, n)
         y = self.as_int(st, b, n)
         return PInt(self.int_binop(st, op, x, y, n))
@@ -834,7 +846,7 @@ class PyExec:
                 if -len(o.items) <= k < len(o.items):
                     return o.items[k]
             raise OutOfSubset("symbolic tuple index")
-        if isinstance(o, PRef) and o.cls in ("list", "strbuilder", "bytelist"):
+        if isinstance(o, PRef) and o.cls in ("list", "strbuilder", "bytelist", "tuple"):
             i = self.as_int(st, idx, n)
             ln = st.heap.len(o.addr)
             self.guard(st, "IndexError", z3.And(i >= -ln, i < ln), n)
@@ -893,6 +905,13 @@ class PyExec:
             arr = z3.Store(arr, i, ival(v))
         h.set("list.len", z3.Store(h.get("list.len"), a, z3.IntVal(len(items))))
         h.set("list.el", z3.Store(h.get("list.el"), a, arr))
+        return PRef(cls, a)
+
+    def new_seq(self, st, cls, ln, els):
+        a = self.alloc(st)
+        h = st.heap
+        h.set("list.len", z3.Store(h.get("list.len"), a, ln))
+        h.set("list.el", z3.Store(h.get("list.el"), a, els))
         return PRef(cls, a)
 
     def alloc(self, st):
@@ -978,7 +997,7 @@ class PyExec:
             raise OutOfSubset("ord of non-char")
         if name == "len":
             v = a[0]
-            if isinstance(v, PRef) and v.cls in ("list", "strbuilder", "bytelist"):
+            if isinstance(v, PRef) and v.cls in ("list", "strbuilder", "bytelist", "tuple"):
                 return PInt(st.heap.len(v.addr))
             if isinstance(v, PTuple):
                 return PInt(len(v.items))
@@ -987,6 +1006,8 @@ class PyExec:
             if isinstance(v, PSeq):
                 return PInt(v.ln)
             raise OutOfSubset("len of %s" % v.kind)
+        if name in ("tuple", "list") and len(a) == 1 and isinstance(a[0], PRef) and a[0].cls in ("list", "tuple"):
+            return self.new_seq(st, name, st.heap.len(a[0].addr), st.heap.els(a[0].addr))
         if name == "abs":
             t = self.as_int(st, a[0], n)
             return PInt(z3.If(t >= 0, t, -t))
@@ -1168,6 +1189,9 @@ class PyExec:
         e.h0 = e.h = h0
         for label, f in con.requires:
             self.oblige(st, "pre", "%s.%s" % (con.name, label), f(e), n)
+        for exc, when in con.raises:
+            # the callee raises `exc` when `when(e)`: an exception site of the caller (obligation unless its contract allows exc there)
+            self.guard(st, exc, z3.Not(when(e)), n, note="raised by %s" % con.name)
         h1 = st.heap.copy()
         if con.modifies:
             for m in con.modifies(e):
@@ -1520,6 +1544,10 @@ class PyExec:
         if op is None:
             raise OutOfSubset("augmented operator")
         cur = self.ev(st, n.target)
+        if isinstance(cur, PRef) and cur.cls == "tuple" and op == "+":
+            r = self.ev_BinOp(st, ast.copy_location(ast.BinOp(left=n.target, op=n.op, right=n.value), n))
+            self.assign(st, n.target, r, n)
+            return [("normal", st, None)]
         v = self.ev(st, n.value)
         r = PInt(self.int_binop(st, op, self.as_int(st, cur, n), self.as_int(st, v, n), n))
         self.assign(st, n.target, r, n)
@@ -1605,13 +1633,16 @@ class PyExec:
             return self.for_dict_items(st, n, ordinal, inv)
         enum = (isinstance(n.iter, ast.Call) and isinstance(n.iter.func, ast.Name) and n.iter.func.id == "enumerate"
                 and len(n.iter.args) == 1 and not n.iter.keywords)
+        if (isinstance(n.iter, ast.Call) and isinstance(n.iter.func, ast.Name) and n.iter.func.id == "range"
+                and 1 <= len(n.iter.args) <= 2 and not n.iter.keywords and isinstance(n.target, ast.Name)):
+            return self.for_range(st, n, ordinal, inv)
         it = self.ev(st, n.iter.args[0] if enum else n.iter)
         if isinstance(it, POpt):
             self.guard(st, "TypeError.iterate_None", z3.Not(it.is_none), n)
             it = it.ref
         if isinstance(it, PRef) and it.cls == "set" and not enum:
             return self.for_set(st, n, ordinal, inv, it)
-        if not (isinstance(it, PRef) and it.cls == "list"):
+        if not (isinstance(it, PRef) and it.cls in ("list", "tuple")):
             raise OutOfSubset("for over %s" % it.kind)
         if inv is None:
             raise OutOfSubset("for loop #%d needs an invariant" % ordinal)
@@ -1633,6 +1664,28 @@ class PyExec:
             self.assign(s, n.target, PTuple([PInt(k), v]) if enum else v, n)
             s.vars[kname] = PInt(k + 1)
         return self.loop_inv(st, n, ordinal, inv, cond, n.body, pre_body, extra_mod=[kname] + names_in_target(n.target))
+
+    def for_range(self, st, n, ordinal, inv):
+        """for i in range([lo,] hi): the bounds are evaluated once; ghost counter _k<n> (the target may be reassigned in the body);
+        on exit the target keeps its last value (unassigned when the range is empty - then it keeps its old value)."""
+        if inv is None:
+            raise OutOfSubset("for loop #%d needs an invariant" % ordinal)
+        bounds = [self.as_int(st, self.ev(st, x), n) for x in n.iter.args]
+        lo, hi = (z3.IntVal(0), bounds[0]) if len(bounds) == 1 else bounds
+        kname = "_k%d" % ordinal
+        st.vars[kname] = PInt(lo)
+        st.vars["_lo%d" % ordinal], st.vars["_hi%d" % ordinal] = PInt(lo), PInt(hi)
+
+        def cond(s):
+            return s.vars[kname].t < hi
+
+        def pre_body(s):
+            k = s.vars[kname].t
+            self.assign(s, n.target, PInt(k), n)
+            s.vars[kname] = PInt(k + 1)
+        if n.target.id not in st.vars:
+            st.vars[n.target.id] = PInt(self.fresh("unassigned_" + n.target.id))
+        return self.loop_inv(st, n, ordinal, inv, cond, n.body, pre_body, extra_mod=[kname, n.target.id])
 
     def for_dict_items(self, st, n, ordinal, inv):
         """for k, v in d.items(): iteration order is arbitrary.  Ghost set $seen<n> of keys visited so far; each
